@@ -569,6 +569,7 @@ impl Node {
                         index: false,
                         old_local_id: node._local_id,
                         old_room_id: node.room_id,
+                        old_entity: Some(node._entity),
                         old_mdate: node.mdate,
                         old_verifying_key: Some(node.verifying_key),
                         old_fts_str: old_fts,
@@ -588,6 +589,7 @@ impl Node {
                 index: false,
                 old_local_id: None,
                 old_room_id: None,
+                old_entity: None,
                 old_mdate: 0,
                 old_verifying_key: None,
                 old_fts_str: None,
@@ -771,6 +773,7 @@ pub struct NodeToInsert {
     pub entity_name: Option<String>,
     pub index: bool,
     pub old_room_id: Option<Uid>,
+    pub old_entity: Option<String>,
     pub old_mdate: i64,
     pub old_verifying_key: Option<Vec<u8>>,
     pub old_local_id: Option<i64>,
@@ -786,8 +789,10 @@ impl NodeToInsert {
 
         if let Some(room_id) = &node.room_id {
             //the previous version leaves its day, even when it stays in the same room
+            //the day is left by the stored version, under the entity it is stored with
             if let Some(old_id) = &self.old_room_id {
-                daily_log.set_need_update(*old_id, &node._entity, self.old_mdate);
+                let old_entity = self.old_entity.as_ref().unwrap_or(&node._entity);
+                daily_log.set_need_update(*old_id, old_entity, self.old_mdate);
             }
             daily_log.set_need_update(*room_id, &node._entity, node.mdate);
         }
